@@ -1,9 +1,9 @@
 (* C04 — Read/write permissions follow the nearest-ancestor rule on the resolved path.
    Property statements only; proofs live in Proofs/Perm.v. *)
 From Coq Require Import ZArith List Bool String.
-From Verif Require Import Lib.Sx Lib.PyStr Lib.PosixPath Lib.Facts Model.Paths Model.Perm
-  Proofs.PosixPathFacts Proofs.Paths Proofs.Perm.
-From Verif Require Gen.Dispatch.
+From Verif Require Import Lib.Sx Lib.PyStr Lib.PosixPath Lib.Facts Model.Paths Model.Perm Model.PermXfer Model.ResolveCheck
+  Proofs.PosixPathFacts Proofs.Paths Proofs.Perm Proofs.PermXfer.
+From Verif Require Gen.Dispatch Gen.Resolve.
 Import ListNotations.
 Open Scope list_scope.
 Open Scope Z_scope.
@@ -101,6 +101,62 @@ Theorem C04_verbs_today :
      = Some (if p_write cur then CallBody else Deny550)).
 Proof. exact (check_perm_table_sound _ _ C04_table_checked). Qed.
 Print Assumptions C04_verbs_today.
+
+(* ===== requests carried out later than they are authorised (LIST MLSD RETR STOR APPE) =====
+   The handler answers 150 and a nested *_worker task does the work when the data connection has arrived;
+   between the two the session goes on (Model/PermXfer.v: CWD, CDUP, another USER/PASS, anything else).
+   For EVERY state at the request (any base, any absolute cwd, any table), EVERY sequence of commands in between
+   and EVERY argument: the decision is taken on the nearest entry of normalize(cwd0, rest), and a worker that uses
+   the handler's real_path hands to the backend exactly base0 ++ normalize(cwd0, rest) -- the location the
+   permission was looked up for -- wherever the working directory or the login have moved meanwhile. *)
+Theorem C04_transfer_target_is_authorised : forall flags st0 bs rest, abs_wf (r_cwd st0) ->
+  let n := normalize (parts (r_cwd st0)) rest in
+  let cur := nearest (r_perms st0) (mkp 1 n) in
+  request flags st0 rest
+  = Some (path_permissions flags cur, cur,
+          match path_permissions flags cur with
+          | CallBody => Some (mkp (anchor (r_base st0)) (parts (r_base st0) ++ n))
+          | _ => None
+          end)
+  /\ worker_path false st0 (between_run st0 bs) rest
+     = Some (mkp (anchor (r_base st0)) (parts (r_base st0) ++ n)).
+Proof. exact transfer_target_is_authorised. Qed.
+Print Assumptions C04_transfer_target_is_authorised.
+
+(* the premise matters: a worker that resolves `rest` again when it starts carries an authorised
+   STOR up.bin (cwd /rw) out in /ro after `CWD /ro`, where the same request is refused *)
+Theorem C04_late_resolution_breaks :
+  exists flags st0 bs rest p,
+    abs_wf (r_cwd st0)
+    /\ (exists cur, request flags st0 rest = Some (CallBody, cur, Some p))
+    /\ (exists q, worker_path true st0 (between_run st0 bs) rest = Some q /\ q <> p
+        /\ exists cur', request flags (between_run st0 bs) rest = Some (Deny550, cur', None)).
+Proof. exact late_resolution_breaks. Qed.
+Print Assumptions C04_late_resolution_breaks.
+
+(* which of the two the source has: checker over Gen/Resolve.v, sound for every accepted source ... *)
+Theorem C04_check_worker_paths_sound : forall wp hr, check_worker_paths wp hr = true ->
+  forall w, In w transfer_workers -> late_of wp w = false.
+Proof. exact check_worker_paths_sound. Qed.
+Print Assumptions C04_check_worker_paths_sound.
+
+(* ... and TODAY's source is accepted: in list / mlsd / retr / stor the variable real_path is bound exactly once,
+   by `real_path, _ = self.get_paths(connection, rest)` on the handler's own unmodified parameters, in the
+   handler's own body before the worker task is created; the worker neither binds real_path nor calls get_paths *)
+Theorem C04_resolve_translator_ok : Gen.Resolve.translator_ok = true.
+Proof. vm_compute. reflexivity. Qed.
+
+Theorem C04_workers_use_authorised_path :
+  check_worker_paths Gen.Resolve.worker_paths Gen.Resolve.handler_resolves = true.
+Proof. vm_compute. reflexivity. Qed.
+Print Assumptions C04_workers_use_authorised_path.
+
+Theorem C04_transfer_target_today : forall w, In w transfer_workers ->
+  forall st0 bs rest, abs_wf (r_cwd st0) ->
+  worker_path (late_of Gen.Resolve.worker_paths w) st0 (between_run st0 bs) rest
+  = Some (mkp (anchor (r_base st0)) (parts (r_base st0) ++ normalize (parts (r_cwd st0)) rest)).
+Proof. exact (transfer_target_checked _ _ C04_workers_use_authorised_path). Qed.
+Print Assumptions C04_transfer_target_today.
 
 (* TODO (lead, Session model): deny_is_550_and_inert at session level -- a request for which
    verb_outcome = Deny550 queues exactly one 550 reply and leaves fs and cwd unchanged.  What is
